@@ -88,3 +88,73 @@ def crosscheck(spec, make_args, runs=6, seed=0):
                 if a.shape != b.shape or not np.allclose(a, b, rtol=1e-9, atol=1e-12, equal_nan=True):
                     bad.append((k, n, a.tolist(), b.tolist()))
     return [{"name": "engine_agrees_with_cpython_on_concrete_inputs", "ok": not bad, "engine": True, "detail": f"{done} random inputs (sizes 0-3); first disagreement: {bad[:1]}", "function": spec.name, "backend": "cpython-crosscheck", "strength": "B"}]
+
+
+def engine_selftest():
+    """Proof rules of PyVC-U on toy functions: what must be rejected is rejected, what must be proved is proved.
+    (A loop rule that forgets to havoc an array written through a callee's frame, a frame rule that misses an alias, a
+    missing bounds obligation ... would show up here as an accepted wrong claim.)  Failure = checker crash (exit 3)."""
+    from pyvc import wp_toys as T
+
+    k, r = ints("k", "r")
+
+    def one_everywhere(old, new, res, n):
+        return [("filled", z3.ForAll([k], z3.Implies(inb(k, n), new.sel("a", k) == 1), patterns=[new.sel("a", k)]))]
+
+    def fill_spec(inv, post=None):
+        req = lambda env: [env["n"] == env.shape("a")]  # noqa: E731
+        ens = post or (lambda old, new, res: one_everywhere(old, new, res, old["n"]) + [("rest_untouched", z3.ForAll([k], z3.Implies(z3.Not(inb(k, old["n"])), new.sel("a", k) == old.sel("a", k)), patterns=[new.sel("a", k)]))])
+        return wp.FnSpec(T.fill, [("a", "arr1"), ("n", "int")], req, ("a",), ens, {0: inv})
+
+    good_inv = lambda old, now, i: [z3.ForAll([k], z3.If(z3.And(k >= 0, k < i), now.sel("a", k) == 1, now.sel("a", k) == old.sel("a", k)), patterns=[now.sel("a", k)])]  # noqa: E731
+    weak_inv = lambda old, now, i: [z3.BoolVal(True)]  # noqa: E731
+    bad_entry = lambda old, now, i: [z3.ForAll([k], z3.Implies(z3.And(k >= 0, k <= i), now.sel("a", k) == 1))]  # noqa: E731
+
+    def verdicts(spec):
+        obls, _ = wp.prove(spec, timeout_s=5.0, budget_s=40.0)
+        return {o.name: o.status for o in obls}
+
+    def all_proved(spec):
+        return all(v == "proved" for v in verdicts(spec).values())
+
+    def some_not_proved(spec, name_part):
+        v = verdicts(spec)
+        return any(name_part in n and s != "proved" for n, s in v.items())
+
+    results = []
+
+    def expect(name, ok):
+        results.append((name, bool(ok)))
+
+    expect("correct_invariant_proves", all_proved(fill_spec(good_inv)))
+    expect("weak_invariant_does_not_prove_the_postcondition", some_not_proved(fill_spec(weak_inv), "post."))
+    expect("invariant_false_on_entry_is_rejected", some_not_proved(fill_spec(bad_entry), "holds_on_entry"))
+    # callee frame inside a loop: claiming the matrix is untouched must fail
+    callee = fill_spec(good_inv)
+    rows_untouched = wp.FnSpec(
+        T.fill_rows,
+        [("m", "arr2"), ("rows", "int")],
+        lambda env: [env["rows"] == env.shape("m", 0), env.shape("m", 1) == 3],
+        ("m",),
+        lambda old, new, res: [("matrix_untouched", new.term("m") == old.term("m"))],
+        {0: lambda old, now, i: [z3.BoolVal(True)]},
+        {"fill": wp.call_contract(callee)},
+    )
+    expect("array_written_through_a_callee_frame_is_havocked_at_the_loop_head", some_not_proved(rows_untouched, "post.matrix_untouched"))
+    rows_filled = wp.FnSpec(
+        T.fill_rows,
+        [("m", "arr2"), ("rows", "int")],
+        lambda env: [env["rows"] == env.shape("m", 0), env.shape("m", 1) == 3],
+        ("m",),
+        lambda old, new, res: [("all_ones", z3.ForAll([r, k], z3.Implies(z3.And(inb(r, old["rows"]), inb(k, 3)), new.sel("m", r, k) == 1), patterns=[new.sel("m", r, k)]))],
+        {0: lambda old, now, i: [z3.ForAll([r, k], z3.Implies(z3.And(inb(r, i), inb(k, 3)), now.sel("m", r, k) == 1), patterns=[now.sel("m", r, k)])]},
+        {"fill": wp.call_contract(callee)},
+    )
+    expect("callee_contract_on_row_views_proves_the_matrix_filled", all_proved(rows_filled))
+    expect("write_outside_the_declared_frame_is_rejected", some_not_proved(wp.FnSpec(T.write_other, [("a", "arr1"), ("b", "arr1")], lambda env: [env.shape("b") >= 1], ("a",), None, {}), "frame.b_unchanged"))
+    expect("out_of_bounds_store_is_rejected", some_not_proved(wp.FnSpec(T.out_of_bounds, [("a", "arr1"), ("n", "int")], lambda env: [env["n"] == env.shape("a")], ("a",), None, {}), "index_in_bounds"))
+    expect("store_through_an_alias_reaches_the_parameter", some_not_proved(wp.FnSpec(T.alias, [("a", "arr1")], lambda env: [env.shape("a") >= 1], (), None, {}), "frame.a_unchanged"))
+    short = wp.FnSpec(T.early, [("a", "arr1"), ("n", "int")], lambda env: [env["n"] == env.shape("a")], ("a",), lambda old, new, res: one_everywhere(old, new, res, old["n"]), {0: good_inv})
+    expect("loop_that_stops_one_short_does_not_prove_the_postcondition", some_not_proved(short, "post.filled"))
+    bad = [n for n, ok in results if not ok]
+    return [{"name": "proof_rules_accept_and_reject_as_they_must_on_toy_functions", "ok": not bad, "engine": True, "detail": f"{len(results)} rule tests; failed: {bad}", "function": "pyvc.wp", "backend": "selftest", "strength": "B"}]
